@@ -89,11 +89,14 @@ TOL = 1e-10
 MAX_ITER = 200
 EPS = float(np.finfo(float).eps)
 
+# input points and start values are deliberately not "round": with round numbers c_v + B_v x cancels to rounding level for
+# some variable (0.4 - 0.3 * 1.5 + 0.2 * 0.25 = 5.6e-17), and a start component of that size defeats the *relative*
+# forward-difference step of MINPACK (SciPy lm / hybr, used by MDAQuasiNewton) - not something gemseo decides
 ALPHABETS = [
-    {"name": "a", "shift": 0, "start": 0.0, "x": [[0.7, -1.3], [-0.4, 0.9], [1.5, 0.25]]},
-    {"name": "b", "shift": 1, "start": 0.25, "x": [[-1.1, 0.6], [0.3, 1.2], [-0.8, -0.5]]},
-    {"name": "c", "shift": 2, "start": -0.5, "x": [[1.4, 1.0], [-1.5, -0.2], [0.1, -0.9]]},
-    {"name": "d", "shift": 4, "start": 0.0, "x": [[-0.6, -1.4], [1.2, 0.4], [0.0, 1.5]]},
+    {"name": "a", "shift": 0, "start": 0.0, "x": [[0.71, -1.33], [-0.43, 0.91], [1.47, 0.26]]},
+    {"name": "b", "shift": 1, "start": 0.27, "x": [[-1.13, 0.62], [0.31, 1.21], [-0.83, -0.52]]},
+    {"name": "c", "shift": 2, "start": -0.53, "x": [[1.41, 1.03], [-1.49, -0.22], [0.13, -0.91]]},
+    {"name": "d", "shift": 4, "start": 0.0, "x": [[-0.61, -1.43], [1.22, 0.41], [0.07, 1.49]]},
 ]
 ALPHA = ALPHABETS[0]
 
@@ -695,6 +698,8 @@ def expand(cls, n, edges, loops, k, only_axes=None, transformer_product=False):
     if only_axes is not None:
         ax = {a: (v if a in only_axes else v[:1]) for a, v in ax.items()}
     for c in product.deviations(ax, k):
+        if c["_deviations"] > 1 and c.get("parallel") == "processes":
+            continue  # cap: every MDA iteration forks a process pool (~1 s per case); process-based execution is a single deviation only
         case = _finish(cls, n, edges, loops, c)
         if case is not None:
             yield case
